@@ -30,12 +30,12 @@ def _operand(K, kind, m):
         pos = K.int('pos_y', 0, m) if is_stream(cls) else None
         K.opos = pos
         return mk(K, cls, y, pos), y, cls
-    if kind == 'bytes':
+    if kind in ('bytes', 'bytearray'):
         assert m % 8 == 0
         b = K.bytes('yb', m // 8)
         bits = O.empty()
         bits.frombytes(b)
-        return b, bits, None
+        return (bytearray(b) if kind == 'bytearray' else b), bits, None
     if kind == 'bools':
         y = K.bits('y', m)
         lst = [bool(y[j]) if not K.symbolic else (y[j] == 1) for j in range(m)]
